@@ -28,8 +28,9 @@ OPN = {1: "history_backward", 2: "history_forward", 3: "go_to_history", 4: "auto
        6: "end-of-history", 7: "insert_text", 8: "delete_before_cursor", 9: "delete", 10: "set_text",
        11: "set_cursor_position", 12: "cursor_left", 13: "cursor_right", 14: "validate", 15: "accept",
        16: "reset", 17: "load_history_if_not_yet_loaded", 18: "population_step", 19: "population_all",
-       20: "set_enable_history_search", 21: "append_to_history"}
-NAV = (1, 2, 3, 4, 5, 6, 11, 12, 13, 20)
+       20: "set_enable_history_search", 21: "append_to_history", 22: "new_session_same_backend",
+       23: "apply_search->(index,cursor)", 24: "apply_search", 25: "selection"}
+NAV = (1, 2, 3, 4, 5, 6, 11, 12, 13, 20, 23, 25)
 HIST_STEP = (1, 2, 4, 5)
 EDIT = (7, 8, 9, 10)
 POP = (18, 19)
@@ -92,15 +93,16 @@ def rules_ignore_cursor(rules):
 # --------------------------------------------------------------------------
 # implementation side
 
-def make_history(strings):
-    from prompt_toolkit.history import InMemoryHistory
+def make_history(strings, path=None):
+    """A History whose load() delivers one item per permit; every item is still
+    produced by History.load() itself.  path: FileHistory on that file (the
+    strings are ignored: the file is the storage), else InMemoryHistory."""
+    from prompt_toolkit.history import FileHistory, InMemoryHistory
+    base = FileHistory if path else InMemoryHistory
 
-    class GatedHistory(InMemoryHistory):
-        """InMemoryHistory whose load() delivers one item per permit; every
-        item is still produced by History.load() itself."""
-
-        def __init__(self, s):
-            super().__init__(s)
+    class GatedHistory(base):
+        def __init__(self, arg):
+            super().__init__(arg)
             self.permits = 0
             self.ev = asyncio.Event()
 
@@ -121,7 +123,16 @@ def make_history(strings):
         def grant(self, n):
             self.permits += n
             self.ev.set()
-    return GatedHistory(strings)
+    return GatedHistory(path if path else strings)
+
+
+def storage_of(h):
+    """the stored history, oldest first: InMemoryHistory's list, or what a NEW
+    FileHistory object reads back from the file"""
+    if hasattr(h, "_storage"):
+        return list(h._storage)
+    from prompt_toolkit.history import FileHistory
+    return list(reversed(list(FileHistory(h.filename).load_history_strings())))
 
 
 VST = {"UNKNOWN": 0, "VALID": 1, "INVALID": 2}
@@ -134,7 +145,8 @@ def snapshot(b, h, status, ret):
             [S(x) for x in b._working_lines], b.working_index, b.cursor_position,
             None if b.history_search_text is None else [S(b.history_search_text)],
             None if b.preferred_column is None else [b.preferred_column],
-            VST[b.validation_state.name], [S(x) for x in h._loaded_strings[::-1]], [S(x) for x in h._storage]]
+            VST[b.validation_state.name], [S(x) for x in h._loaded_strings[::-1]], [S(x) for x in storage_of(h)],
+            1 if b.selection_state is not None else 0]
 
 
 async def spin(n=6):
@@ -172,7 +184,25 @@ def get_dummy_app():
     return _APP["app"]
 
 
-async def impl_buffer_case(case, slow=False):
+_FILE = {"dir": None, "n": 0}
+
+
+def new_history_file():
+    import tempfile
+    if _FILE["dir"] is None:
+        _FILE["dir"] = tempfile.mkdtemp(prefix="c14-fh-", dir="/var/tmp")
+    _FILE["n"] += 1
+    return os.path.join(_FILE["dir"], "h%d" % _FILE["n"])
+
+
+def cleanup_history_files():
+    import shutil
+    if _FILE["dir"]:
+        shutil.rmtree(_FILE["dir"], ignore_errors=True)
+        _FILE["dir"] = None
+
+
+async def impl_buffer_case(case, slow=False, file_backend=False):
     """-> list of snapshots, one per observed op.  slow: the validator's
     validate_async is gated; the gate is closed while operations flagged
     "deferred" run (their scheduled validation starts but stays in flight) and
@@ -189,7 +219,15 @@ async def impl_buffer_case(case, slow=False):
     def handler(buff):
         rets.append(buff.text)
         return bool(keep)
-    h = make_history([unS(x) for x in storage])
+    path = None
+    if file_backend:
+        # the initial history is written by the real FileHistory.store_string
+        from prompt_toolkit.history import FileHistory
+        path = new_history_file()
+        fh = FileHistory(path)
+        for x in storage:
+            fh.store_string(unS(x))
+    h = make_history([unS(x) for x in storage], path)
     gate = asyncio.Event() if slow else None
     with set_app(get_dummy_app()):
         b = Buffer(history=h, validator=None if rules is None else make_validator(rules, gate),
@@ -246,6 +284,24 @@ async def impl_buffer_case(case, slow=False):
                         flags["ehs"] = bool(op[1])
                     elif k == 21:
                         b.append_to_history()
+                    elif k == 25:
+                        if op[1]:
+                            b.start_selection()
+                        else:
+                            b.exit_selection()
+                    elif k == 22:
+                        # next run of the program: new History object on the same storage, new buffer state
+                        h = make_history(storage_of(h), path)
+                        b.history = h
+                        b.reset()
+                    elif k == 24:
+                        # incremental-search landing: the search itself is C16's; what it found is
+                        # recorded in the case (op 23) and applied by the real apply_search
+                        from prompt_toolkit.search import SearchDirection, SearchState
+                        st8 = SearchState(unS(op[1]), SearchDirection.FORWARD if op[2] else SearchDirection.BACKWARD)
+                        found = b._search(st8, include_current_position=bool(op[3]), count=op[4])
+                        b.apply_search(st8, include_current_position=bool(op[3]), count=op[4])
+                        op[:] = [23] + (list(found) if found is not None else [-1, 0])
                     else:
                         raise ValueError(k)
                 except (AssertionError, IndexError) as e:
@@ -457,8 +513,8 @@ def oracle_case(case, results):
         op = between[-1]
         k = op[0]
         name = OPN[k]
-        st, ret, wl, wi, cur, hst, pref, vst, gs, sto = after
-        _, _, wl0, wi0, cur0, hst0, _, vst0, gs0, sto0 = prev
+        st, ret, wl, wi, cur, hst, pref, vst, gs, sto = after[:10]
+        _, _, wl0, wi0, cur0, hst0, _, vst0, gs0, sto0 = prev[:10]
         text0 = wl0[wi0] if -len(wl0) <= wi0 < len(wl0) else []
         text1 = wl[wi] if -len(wl) <= wi < len(wl) else []
         kinds = set(o[0] for o in between)
@@ -549,7 +605,9 @@ def oracle_case(case, results):
                        % ([unS(x) for x in exp], [unS(x) for x in sto], unS(t)), fam, name, (sto0, sto))
         # --- reset: clean entry list; after full population = history ++ [new]
         for o in between:
-            if o[0] == 16:
+            if o[0] == 22:
+                clean_text, load_started = [], False
+            elif o[0] == 16:
                 clean_text, load_started = o[1], False
                 if o[3]:
                     clean_text = None
@@ -557,6 +615,9 @@ def oracle_case(case, results):
                 load_started = True
             elif o[0] not in NAV + POP + (14,):
                 clean_text = None
+        if k == 22 and st == 0 and (sto != sto0 or wl != [[]] or wi != 0):
+            yield ("reset_clean: a new session must see exactly the stored history and start from a clean entry list",
+                   "new-session", name, (sto0, sto, wl))
         if k == 16 and st == 0:
             if wl != [op[1]] or wi != 0 or cur != op[2] or hst is not None:
                 yield ("reset_clean: after reset the entry list must be [new text]", "reset", name, (wl, wi, cur))
@@ -643,8 +704,12 @@ def rand_buffer_op(rng, loaded):
         return [18]
     if r < 0.97:
         return [19]
-    if r < 0.99:
+    if r < 0.975:
         return [20, rng.randint(0, 1)]
+    if r < 0.982:
+        return [25, rng.choice([1, 1, 0])]
+    if r < 0.99:
+        return [24, S(rng.choice(["a", "b", "ab", "", "x", "\n"])), rng.randint(0, 1), rng.randint(0, 1), rng.choice([1, 1, 2, 0])]
     return [21]
 
 
@@ -664,7 +729,8 @@ def gen_buffer_cases(chk):
 
     # 1. exhaustive navigation words over small histories, with and without prefix search
     hists = [[], ["a"], ["a", "b"], ["ab", "b", "a"], ["a", "ab", "a", "abc"], ["a\nb", "a", "a\nb"]]
-    nav_alpha = [[1, 1], [2, 1], [4, 1, 0], [5, 1, 0], [1, 2], [2, 2], [3, 0], [6], [12, 1], [7, S("a")], [8, 1]]
+    nav_alpha = [[1, 1], [2, 1], [4, 1, 0], [5, 1, 0], [1, 2], [2, 2], [3, 0], [6], [12, 1], [7, S("a")], [8, 1],
+                 [24, S("a"), 0, 0, 1]]      # + an incremental backward search for "a" landing somewhere
     depth = 4 if thorough else 3
     for hh in hists:
         for ehs in (0, 1):
@@ -672,9 +738,15 @@ def gen_buffer_cases(chk):
                 pre = [[17], [19]] + ([[7, S(typed)]] if typed else [])
                 for n in range(1, depth + 1):
                     for w in itertools.product(nav_alpha, repeat=n):
-                        if n == depth and not thorough and rng.random() > 0.2:
+                        if n == depth and not thorough and rng.random() > 0.16:
                             continue
                         add("exhaustive_nav_words", [S(x) for x in hh], ehs, 0, 0, None, pre + [list(o) for o in w])
+    # 1b. selection on/off mixed with Up/Down, an edit (which drops the selection) and a cursor move
+    sel_alpha = [[25, 1], [25, 0], [4, 1, 0], [5, 1, 0], [7, S("a")], [12, 1]]
+    for hh in (["a"], ["ab", "b", "a"], ["a\nb", "a", "a\nb"]):
+        for n in range(1, 4):
+            for w in itertools.product(sel_alpha, repeat=n):
+                add("selection_words", [S(x) for x in hh], 0, 0, 0, None, [[17], [19], [4, 1, 0]] + [list(o) for o in w])
     # 2. back k / forward k from every index
     for hh in hists[1:]:
         for start in range(len(hh) + 1):
@@ -722,6 +794,50 @@ def gen_buffer_cases(chk):
             ops.append(rand_buffer_op(rng, True))
         add("random_buffer_session", storage, rng.randint(0, 1), rng.randint(0, 1), rng.randint(0, 1), rand_rules(rng), ops)
     return cases, dist
+
+
+ADV_TEXTS = ["ok", "echo hi\n", "\n", "a\n\nb", "a\r", "t\r\n", "b\x0bc", "x\x0c", "p\x1cq", "\x1d", "m\x1e",
+             "n\x85o", "u\u2028v", "w\u2029", "if x:\n    y", " lead", "trail ", "+plus", "# hash", ""]
+
+
+def gen_file_cases(chk):
+    """History persisted by a real FileHistory; 'new session' = a new FileHistory object on the same file
+    (what the next run of the program sees).  Texts from the alphabet of characters that str.splitlines,
+    the '+' record format or whitespace stripping could mistreat."""
+    rng = chk.rng
+    thorough = chk.tier == "thorough"
+    cases = []
+    for t in ADV_TEXTS:
+        for pre in ([], ["first"], ["first", t]):
+            st = [S(x) for x in pre]
+            # accept t; next session: recall it with C-Up and accept it again; a third session sees it once
+            cases.append([st, 0, 0, 0, None, fl([[17], [19], [10, S(t)], [15], [22], [17], [19], [1, 1], [15],
+                                                  [22], [17], [19], [1, 1], [10, S(t)], [15], [22], [17], [19]])])
+            # the same with the text given as the prompt's default and kept by the accept handler
+            cases.append([st, 0, 0, 1, None, fl([[16, S(t), len(t), 0], [17], [19], [15], [22], [16, S(t), 0, 0], [15],
+                                                  [22], [17], [19], [4, 1, 0]])])
+    for _ in range(1200 if thorough else 150):
+        ops = []
+        for _ in range(rng.randint(3, 20)):
+            r = rng.random()
+            if r < 0.22:
+                ops.append([10, S(rng.choice(ADV_TEXTS))])
+            elif r < 0.30:
+                t = rng.choice(ADV_TEXTS)
+                ops.append([16, S(t), rng.choice([0, len(t)]), rng.choice([0, 0, 1])])
+            elif r < 0.45:
+                ops.append([15])
+            elif r < 0.57:
+                ops.append([22])
+            elif r < 0.70:
+                ops += [[17], [19]]
+            else:
+                o = rand_buffer_op(rng, True)
+                ops.append(o)
+        storage = [S(rng.choice(ADV_TEXTS + HIST_POOL)) for _ in range(rng.choice([0, 1, 2, 3]))]
+        storage = [x for x in storage if x]      # an empty string cannot be told from "no entry" in the file format
+        cases.append([storage, rng.randint(0, 1), rng.randint(0, 1), rng.randint(0, 1), rand_rules(rng), fl(ops)])
+    return cases
 
 
 def gen_slow_cases(chk):
@@ -841,9 +957,11 @@ def run_impl(runner, level, item):
             return item, runner.run(lambda: impl_buffer_case(item))
         if level == "buffer-slow":
             return item, runner.run(lambda: impl_buffer_case(item, slow=True))
+        if level == "buffer-file":
+            return item, runner.run(lambda: impl_buffer_case(item, file_backend=True))
         return runner.run(lambda: impl_session_case(item), 20)
     except Hang:
-        if level in ("buffer", "buffer-slow"):
+        if level in ("buffer", "buffer-slow", "buffer-file"):
             return item, [["HANG"]]
         return [item[0], item[1], item[2], 1, item[3] if item[3] is not None else [], []], [["HANG"]]
 
@@ -868,6 +986,12 @@ def main(tier):
     for c in bcases:
         case, res = run_impl(runner, "buffer", c)
         cases.append(case); results.append(res); levels.append("buffer")
+    fcases = gen_file_cases(chk)
+    for c in fcases:
+        case, res = run_impl(runner, "buffer-file", c)
+        cases.append(case); results.append(res); levels.append("buffer-file")
+    dist["file_history_sessions"] = len(fcases)
+    cleanup_history_files()
     scases = gen_slow_cases(chk)
     for c in scases:
         case, res = run_impl(runner, "buffer-slow", c)
@@ -945,7 +1069,7 @@ def main(tier):
     chk.coverage["rule"] = (
         "case = (initial history, enable_history_search, validate_while_typing, keep_text, validator rules, operation list) "
         "run on the real code and on the Coq model, state compared after every observed operation. Buffer level: all navigation "
-        "words of length <= %d over an 11-letter alphabet x 6 histories x prefix search on/off x typed prefix; back k/forward k from every "
+        "words of length <= %d over a 12-letter alphabet (incl. a search landing) x 6 histories x prefix search on/off x typed prefix; back k/forward k from every "
         "index for k = 0..4; accept over validators x texts x reported positions %r x loaded/unloaded history; every placement of "
         "population steps among 4 navigation steps; random sessions over all 21 operations. Session level: random key scripts "
         "(up/down/C-up/C-down/PageUp/PageDown/Left/Right/Backspace/Esc-digit/Esc-</Esc->/characters/Enter, type-ahead keys) over "
@@ -967,8 +1091,9 @@ def replay(data):
     case = [w[0], w[1], w[2], w[3], (w[4][0] if w[4] else None), w[5]]
     runner = Runner()
     lvl = rep.get("level", "buffer")
-    _, res = run_impl(runner, lvl if lvl in ("buffer", "buffer-slow") else "buffer", case)
+    _, res = run_impl(runner, lvl if lvl in ("buffer", "buffer-slow", "buffer-file") else "buffer", case)
     runner.close()
+    cleanup_history_files()
     print(describe_case(case))
     obs = [o for f, o in case[5] if f & 1]
     for o, r in zip(obs, res):
